@@ -475,6 +475,10 @@ Inductive c07_defect :=
   | C07EmptyBehaviorNull            (* empty_behavior = NULL writes null into a property typed `Msg | undefined` *)
   | C07FlattenChildAbsent           (* flatten: the child's properties are inlined as required, the child message may be unset *)
   | C07FlattenChildGoJson           (* flatten: the child is written by encoding/json: snake_case keys, 64-bit numbers, {seconds,nanos} *)
+  | C07FlatOneofVariantOptional     (* flattened discriminated oneof: the variant's fields are inlined into the branch as REQUIRED
+                                       properties, proto3-optional ones included; the wire omits an unset optional field *)
+  | C07FlattenChildOneof            (* flatten child that has a discriminated oneof of its own: the wire carries the child's
+                                       discriminator (and inlined variant), the parent interface only lists the child's plain fields *)
   | C07PathParamString.             (* TS server puts the path parameter string into a number/boolean property *)
 
 Definition c07_defect_str (d : c07_defect) : str :=
@@ -495,6 +499,8 @@ Definition c07_defect_str (d : c07_defect) : str :=
   | C07EmptyBehaviorNull => s "empty-behavior-null"
   | C07FlattenChildAbsent => s "flatten-child-absent"
   | C07FlattenChildGoJson => s "flatten-child-go-json"
+  | C07FlatOneofVariantOptional => s "flat-oneof-variant-optional-required"
+  | C07FlattenChildOneof => s "flatten-child-discriminated-oneof-undeclared"
   | C07PathParamString => s "path-param-string-into-number"
   end.
 
@@ -593,6 +599,21 @@ Fixpoint val_defects (fuel : nat) (sc : schema) (depth : nat) (tn : str) (m : li
                                     | None => false end
                                 | _, _, _ => false end) fs
            then [C07FlattenChildGoJson] else []) ++
+          (if existsb (fun o => o_flatten o &&
+                                existsb (fun f => match f_kind f, mget m (f_name f) with
+                                                  | KMessage c, Some (FM sub) =>
+                                                      match find_message (all_messages sc) c with
+                                                      | Some cm => existsb (fun g => is_optional g && negb (populated sub g)) (m_fields cm)
+                                                      | None => false end
+                                                  | _, _ => false end) (variants M o)) (disc_oneofs M)
+           then [C07FlatOneofVariantOptional] else []) ++
+          (if existsb (fun f => match f_flatten f, f_kind f, mget m (f_name f) with
+                                | Some true, KMessage c, Some (FM sub) =>
+                                    match find_message (all_messages sc) c with
+                                    | Some cm => existsb (fun o => existsb (populated sub) (variants cm o)) (disc_oneofs cm)
+                                    | None => false end
+                                | _, _, _ => false end) fs
+           then [C07FlattenChildOneof] else []) ++
           (if has_unwrap_map_value sc M && existsb (fun f => populated m f && is_64 (f_kind f) && match f_card f with Singular | Optional => true | _ => false end) fs
            then [C07UnwrapSiblingInt64] else []) ++
           (if existsb (fun f => match f_empty f, mget m (f_name f) with Some EBNull, Some (FM []) => true | _, _ => false end) fs
@@ -630,7 +651,15 @@ Definition defects_C07 (sc : schema) (fl : file) (fam : str) (tn : str) (pathfs 
   let is_req := negb (str_eqb fam (s "inh-response")) in
   dedup_defects (
     (if root_unwrap && is_req then [C07RootUnwrapRequest] else []) ++
-    (if root_unwrap && negb is_req && match m with [] => true | _ => false end then [C07RootUnwrapNull] else []) ++
+    (* unwrap.go root unwrap: only a SCALAR list / map without elements is written as null (nil slice / map through
+       encoding/json); message lists and message-valued maps are built element by element and give [] / {} *)
+    (if root_unwrap && negb is_req && match m with [] => true | _ => false end &&
+        match M with
+        | Some M => match root_unwrap_field M with
+                    | Some f => match f_kind f with KMessage _ => false | _ => true end
+                    | None => false end
+        | None => false end
+     then [C07RootUnwrapNull] else []) ++
     (if short_name_clash sc fl then [C07ShortNameMerge] else []) ++
     (if str_eqb fam (s "inh-handler-arg") &&
         existsb (fun p => match M with
